@@ -40,6 +40,11 @@ var vC08Ops = [5]string{"op0", "op1", "op2", "op3", "op4"}
 func vVarHistory(K int, ptr interface{}, vals [4]interface{}, apply interface{}, eq func(i int) bool, id string) {
 	vEnv()
 	b := Create()
+	if vRetained08 {
+		// every operation goes through the handle obtained once, also after Cancel/Reset
+		vVarHistoryRetained(K, b, b.Var(ptr), vals, apply, eq, id)
+		return
+	}
 	cur := 0 // index of the value the variable must hold now
 	for step := 0; step < K; step++ {
 		panicked := false
@@ -80,6 +85,64 @@ func vVarHistory(K int, ptr interface{}, vals [4]interface{}, apply interface{},
 	b.Reset()
 	verifAssert(eq(0), id+".final-reset-restores")
 	verifReached(id)
+}
+
+// vRetained08: the histories keep one VarMock handle instead of looking it up each time
+var vRetained08 bool
+
+func vVarHistoryRetained(K int, b *Builder, h VarMock, vals [4]interface{}, apply interface{}, eq func(i int) bool, id string) {
+	cur := 0
+	for step := 0; step < K; step++ {
+		panicked := false
+		func() {
+			defer func() {
+				if r := recover(); r != nil {
+					panicked = true
+				}
+			}()
+			switch verifChoice(vC08Ops[step], 5) {
+			case 0:
+				h.Set(vals[1])
+				cur = 1
+			case 1:
+				h.Set(vals[2])
+				cur = 2
+			case 2:
+				h.Apply(apply)
+				cur = 3
+			case 3:
+				h.Cancel()
+				cur = 0
+			case 4:
+				b.Reset()
+				cur = 0
+			}
+		}()
+		verifAssert(!panicked, id+".no-panic")
+		if panicked {
+			return
+		}
+		if cur == 0 {
+			verifAssert(eq(0), id+".cancel-restores-pre-mock-value")
+		} else {
+			verifAssert(eq(cur), id+".set-takes-effect")
+		}
+	}
+	h.Cancel()
+	b.Reset()
+	verifAssert(eq(0), id+".final-cancel-restores")
+	verifReached(id)
+}
+
+// VC_C08_retained_int / _struct: the same histories through one retained handle (Set
+// after a Cancel/Reset on the same handle, repeated Cancel, ...).
+func VC_C08_retained_int() {
+	vRetained08 = true
+	defer func() { vRetained08 = false }()
+	v0, v1, v2, v3 := verifInt("v0"), verifInt("v1"), verifInt("v2"), verifInt("v3")
+	vgInt = v0
+	vals := [4]interface{}{v0, v1, v2, v3}
+	vVarHistory(4, &vgInt, vals, func() int { return v3 }, func(i int) bool { return vgInt == vals[i].(int) }, "C08.retained.int")
 }
 
 func VC_C08_int() {
